@@ -64,10 +64,11 @@ THREAD_MESH_EXTERNS = {
     ("Polyhedron", "cylinder"): {"lean": "Src.Polyhedron.cylinder", "params": [("radius", "f64", "val"), ("height", "f64", "val"), ("segments", "u64", "val")], "ret": "Polyhedron", "selfmode": None, "partial": True},
     ("Polyhedron", "into_scad"): {"lean": "Src.Polyhedron.into_scad", "params": [("self", "Polyhedron", "val")], "ret": "Scad", "selfmode": "val"},
 }
+TRANSLATE["thread_lookup"] = [(None, "m_table_lookup")]
 TRANSLATE["thread_parts"] = [(None, "threaded_rod"), (None, "tap"), (None, "hex_bolt"), (None, "hex_nut")]
-SOURCE = {"pipe": "pipe", "scad": "scad", "thread_parts": "metric_thread", "poly": "dim3", "chain2": "dim2", "chain3": "dim3", "viewer": "viewer", "thread_mesh": "metric_thread"}
+SOURCE = {"pipe": "pipe", "scad": "scad", "thread_parts": "metric_thread", "poly": "dim3", "chain2": "dim2", "chain3": "dim3", "viewer": "viewer", "thread_mesh": "metric_thread", "thread_lookup": "metric_thread"}
 OUTNAME = {"pipe": "SrcPipe", "scad": "SrcScad", "thread_parts": "SrcThreadParts", "poly": "SrcPolyhedron",
-           "chain2": "SrcChain2", "chain3": "SrcChain3", "viewer": "SrcViewer", "thread_mesh": "SrcThreadMesh"}
+           "chain2": "SrcChain2", "chain3": "SrcChain3", "viewer": "SrcViewer", "thread_mesh": "SrcThreadMesh", "thread_lookup": "SrcThreadLookup"}
 # the ear-clipping entry points stay hand-modelled (Model/Tri.lean): named directly in the mesh builders
 POLY_EXTERNS = {
     (None, "triangulate2d"): {"lean": "Tri.triangulate2d", "params": [("vertices", "Pt2s", "ref")], "ret": "Indices", "selfmode": None, "partial": True},
@@ -152,6 +153,10 @@ def generate_file(repo, only):
         ctx.sigs.update(POLY_EXTERNS)
         ctx.structs["Polyhedron"] = {"fields": [("points", "Pt3s"), ("faces", "Faces")], "derives": []}
         ctx.record_structs = {"Polyhedron"}
+    if only == "thread_lookup":
+        # the table itself is regenerated by gen_thread.py (Gen/ThreadTable.lean); `m_table()` names it
+        ctx.sigs[(None, "m_table")] = {"lean": "Gen.threadTable", "params": [], "ret": "ThreadTable", "selfmode": None}
+        ctx.while_fuel = {"m_table_lookup": "Int.toNat m"}
     if only == "thread_mesh":
         ctx.sigs.update(THREAD_MESH_EXTERNS)
         ctx.ops[("+", "Scad", "Scad")] = ("Src.Scad.add_Scad", "Scad")
@@ -210,7 +215,7 @@ def generate_file(repo, only):
             if "unwrap" in ms or ms & known:
                 return True
         return any((k[1] in names) for k, sg in list(ctx.sigs.items()) if sg.get("partial")) or bool(names & known)
-    partial_names = set()
+    partial_names = {"m_table_lookup"} if only == "thread_lookup" else set()
     changed = True
     while changed:
         changed = False
@@ -240,6 +245,7 @@ def generate_file(repo, only):
            ["import ScadVerif.Model.Dim3"] if only == "poly" else []) + (
            ["import ScadVerif.Model.Dim2"] if only == "chain2" else []) + (
            ["import ScadVerif.Gen.SrcScad", "import ScadVerif.Gen.SrcMetricThread", "import ScadVerif.Gen.SrcPolyhedron"] if only == "thread_mesh" else []) + (
+           ["import ScadVerif.Model.Thread", "import ScadVerif.Model.SrcSupport"] if only == "thread_lookup" else []) + (
            ["import ScadVerif.Gen.SrcScad", "import ScadVerif.Gen.SrcChain2", "import ScadVerif.Gen.SrcChain3", "import ScadVerif.Gen.SrcPolyhedron",
             "import ScadVerif.Model.Viewer"] if only == "viewer" else []) + (
            ["import ScadVerif.Model.Dim3", "import ScadVerif.Gen.SrcDim3"] if only == "chain3" else []) + [
